@@ -30,6 +30,7 @@ type SpecEnv struct {
 	reach *Term
 	fr    *frame
 	at    *ssa.BasicBlock // for local-variable lookup (loop header)
+	beforeIdx int         // >0: program-point assertion before instruction index beforeIdx of block at
 	depth int
 }
 
@@ -356,8 +357,7 @@ func (se *SpecEnv) binary(x *SBin) (Value, types.Type) {
 		}
 	}
 	if a.Sort == SStr && x.Op == "+" {
-		vc.declare("strcat", "(declare-fun strcat (Str Str) Str)")
-		return App("strcat", SStr, a, b), t
+		return vc.StrCat(a, b), t
 	}
 	return vc.Arith(x.Op, a, b, t), t
 }
@@ -368,7 +368,7 @@ func (se *SpecEnv) ident(x *SIdent) (Value, types.Type) {
 	}
 	// local variables of the function (loop invariants)
 	if se.fr != nil {
-		if v, t, ok := se.ex.lookupLocal(se.fr, x.Name, se.at, se.cur); ok {
+		if v, t, ok := se.ex.lookupLocalAt(se.fr, x.Name, se.at, se.cur, se.beforeIdx); ok {
 			return v, t
 		}
 	}
@@ -999,7 +999,24 @@ func (ex *Exec) hasLocal(fr *frame, name string) bool {
 }
 
 func (ex *Exec) lookupLocal(fr *frame, name string, at *ssa.BasicBlock, st *State) (Value, types.Type, bool) {
+	return ex.lookupLocalAt(fr, name, at, st, 0)
+}
+
+func (ex *Exec) lookupLocalAt(fr *frame, name string, at *ssa.BasicBlock, st *State, beforeIdx int) (Value, types.Type, bool) {
 	fn := fr.fn
+	if strings.HasPrefix(name, "$") {
+		// an SSA register by name (for anonymous temporaries such as composite literals)
+		for _, b := range fn.Blocks {
+			for _, in := range b.Instrs {
+				if v, ok := in.(ssa.Value); ok && v.Name() == name[1:] {
+					if val, ok := fr.env[v]; ok {
+						return val, v.Type(), true
+					}
+				}
+			}
+		}
+		return nil, nil, false
+	}
 	for _, p := range fn.Params {
 		if p.Name() == name {
 			if v, ok := fr.env[p]; ok {
@@ -1030,7 +1047,10 @@ func (ex *Exec) lookupLocal(fr *frame, name string, at *ssa.BasicBlock, st *Stat
 	// debug refs
 	var best *ssa.DebugRef
 	for _, b := range fn.Blocks {
-		for _, in := range b.Instrs {
+		for ii, in := range b.Instrs {
+			if at != nil && b == at && beforeIdx > 0 && ii >= beforeIdx {
+				break
+			}
 			d, ok := in.(*ssa.DebugRef)
 			if !ok {
 				continue
@@ -1053,7 +1073,7 @@ func (ex *Exec) lookupLocal(fr *frame, name string, at *ssa.BasicBlock, st *Stat
 			if at != nil && !(b.Dominates(at)) {
 				continue
 			}
-			if at != nil && b == at {
+			if at != nil && b == at && beforeIdx == 0 {
 				continue
 			}
 			if best == nil || best.Block().Dominates(b) {
